@@ -4,9 +4,26 @@
   `{"op":"defenv","name":k,"env":…}` stores an environment; later lines may say `"envref":k`.
 -/
 import CedarGo.Driver.Ops.Core
+import CedarGo.Driver.Ops.C05
+import CedarGo.Driver.Ops.C06
+import CedarGo.Driver.Ops.C07
+import CedarGo.Driver.Ops.C08
+import CedarGo.Driver.Ops.C09
+import CedarGo.Driver.Ops.C10
+import CedarGo.Driver.Ops.C11
+import CedarGo.Driver.Ops.C12
+import CedarGo.Driver.Ops.C13
+import CedarGo.Driver.Ops.C14
+import CedarGo.Driver.Ops.C15
+import CedarGo.Driver.Ops.C16
+import CedarGo.Driver.Ops.C17
+import CedarGo.Driver.Ops.C18
+import CedarGo.Driver.Ops.C19
+import CedarGo.Driver.Ops.C20
 open Lean CedarGo CedarGo.Driver
 
-def allOps : List (String × Handler) := coreOps
+def allOps : List (String × Handler) :=
+  coreOps ++ c05Ops ++ c06Ops ++ c07Ops ++ c08Ops ++ c09Ops ++ c10Ops ++ c11Ops ++ c12Ops ++ c13Ops ++ c14Ops ++ c15Ops ++ c16Ops ++ c17Ops ++ c18Ops ++ c19Ops ++ c20Ops
 
 def handleLine (envs : Envs) (line : String) : Envs × String :=
   match Json.parse line with
